@@ -45,6 +45,20 @@ class RustPanic(Exception):
     pass
 
 
+class SInt:
+    """Symbolic integer counter: `base + off` for an unknown non-negative base (loop-carried
+    usize such as steps.total, evals.ode, nmax). Addition of concrete integers is tracked
+    exactly; every other observation is over-approximated (comparisons are nondeterministic)."""
+
+    __slots__ = ("base", "off")
+
+    def __init__(self, base, off=0):
+        self.base, self.off = base, off
+
+    def __repr__(self):
+        return f"{self.base}{self.off:+d}"
+
+
 class RVec:
     """Vec / array / slice storage (reference semantics like a Rust &mut [T])."""
 
@@ -231,6 +245,8 @@ class Interp:
         self.uninit = object()
         self.steps = 0
         self.max_steps = 2_000_000
+        self.sint_observations = []
+        self.sint_counter = 0
 
     # ------------------------------------------------------------ decisions
     def decide(self, cond, why=""):
@@ -547,6 +563,10 @@ class Interp:
     def e_cast(self, n, env):
         v = self.expr(n[1], env)
         ty = n[2]
+        if isinstance(v, SInt):
+            if ty in ("Float", "f64", "f32"):
+                return self.d.opaque_float("cnt")
+            return v
         if ty in ("Float", "f64", "f32"):
             if isinstance(v, bool):
                 v = int(v)
@@ -605,6 +625,8 @@ class Interp:
             a = a.get()
         if isinstance(b, ElemRef):
             b = b.get()
+        if isinstance(a, SInt) or isinstance(b, SInt):
+            return self.sint_op(op, a, b)
         ints = isinstance(a, int) and isinstance(b, int) and not isinstance(a, bool) and not isinstance(b, bool)
         if ints:
             if op == "+":
@@ -642,6 +664,22 @@ class Interp:
         if op in ("&", "|") and not isinstance(a, (int, float)):
             return self.d.b_and(a, b) if op == "&" else self.d.b_or(a, b)
         raise Unsupported(f"binary {op} on {type(a).__name__},{type(b).__name__}")
+
+    def sint_op(self, op, a, b):
+        if op in ("+", "-") and isinstance(a, SInt) and isinstance(b, int) and not isinstance(b, bool):
+            return SInt(a.base, a.off + (b if op == "+" else -b))
+        if op == "+" and isinstance(b, SInt) and isinstance(a, int) and not isinstance(a, bool):
+            return SInt(b.base, b.off + a)
+        if op in ("==", "!=", "<", ">", "<=", ">="):
+            if isinstance(a, SInt) and isinstance(b, SInt) and a.base == b.base:
+                x, y = a.off, b.off
+                return {"==": x == y, "!=": x != y, "<": x < y, ">": x > y, "<=": x <= y, ">=": x >= y}[op]
+            self.sint_observations.append((op, repr(a), repr(b)))
+            return self.d.fresh_bool("icmp")
+        if op in ("%", "/", "*", "+", "-"):
+            self.sint_counter += 1
+            return SInt(f"opaque{self.sint_counter}")
+        raise Unsupported(f"operation {op} on a symbolic counter")
 
     def e_range(self, n, env):
         lo = None if n[1] is None else self.expr(n[1], env)
